@@ -575,6 +575,8 @@ def judge_planting(ctx, res, item, r):
                 res.violate(f'faulty specification ({fault}) accepted on the {path} path', case, obs[path], 'BiogemeError', where=f'audit:{path}')
             elif kind != 'BiogemeError':
                 res.violate(f'faulty specification ({fault}) refused with {kind} instead of the library error on the {path} path', case, obs[path], 'BiogemeError', where=f'audit:{path}')
+        if must is not True and kind not in ('ok', 'BiogemeError'):
+            res.violate(f'planting ({fault}): the {path} path raises {kind}, not the library error', case, obs[path], 'accepted or BiogemeError', where=f'audit:{path}')
         if fault in ('valid_var', 'valid_num') and not panel and kind != 'ok' and all(slot_type(c) == 'any' and c[0] not in ('MonteCarlo', 'Integrate', 'PanelLikelihoodTrajectory') for c in chain):
             res.violate(f'valid specification refused on the {path} path', case, obs[path], 'accepted', where=f'audit:{path}')
     # on panel data a data variable that is not inside the trajectory operator must be refused by BIOGEME(...)
@@ -835,7 +837,8 @@ def names_oracle(case):
     elems = [tuple(e[:2]) for e in case['elems']]
     classes = {}
     for kind, name in elems:
-        classes.setdefault(name, set()).add('parameter' if kind in ('beta', 'betaFixed') else kind)
+        # (a parameter to be estimated and a fixed parameter are two kinds of element: the library numbers them apart)
+        classes.setdefault(name, set()).add(kind)
     absent = sorted({n for k, n in elems if k == 'var' and n not in NAME_COLS})       # column absent from the data
     clash = sorted(n for n, cl in classes.items() if len(cl) >= 2)                     # one name for two kinds of element
     offending = sorted(set(absent) | set(clash))
@@ -887,6 +890,10 @@ def judge_names(ctx, res, case, r):
                 res.violate(f'names {offending}: the error message names none of them ({entry})', c, e['obs'], 'a message naming the element', where=where)
         if clean and kind != 'ok':
             res.violate(f'valid specification (distinct names, all columns present) refused ({entry})', c, e['obs'], 'accepted', where=where)
+        elif not must and kind not in ('ok', 'BiogemeError') and (plain or entry != 'bio_skip'):
+            # (audit switched off by the caller under a MonteCarlo / Integrate / trajectory context: a fault only the audit reports is not judged)
+            # faulty or not: an exception that is not the library's own never is an answer of an entry point
+            res.violate(f'names: the entry point {entry} raises {kind}, not the library error', c, e['obs'], 'accepted or BiogemeError', where=where)
         req = {'op': 'stages', 'dag': e['nodes'], 'root': e['root'], 'cols': NAME_COLS, 'panel': False}
 
         def cb(ans, obs=e['obs'], c=c, entry=entry, where=where):
@@ -1769,6 +1776,8 @@ def judge_session(ctx, res, case, r, stream='session'):
                 res.violate(f'{stream}: evaluation #{k + 1} ({op["entry"]}) refuses a faulty specification with {kind} instead of the library error', c, [kind, msg], 'BiogemeError', where=where)
         elif must is False and kind != 'ok':
             res.violate(f'{stream}: evaluation #{k + 1} ({op["entry"]}) refuses a specification that is valid now', c, [kind, msg], 'accepted', where=where)
+        elif must is None and kind not in ('ok', 'BiogemeError'):
+            res.violate(f'{stream}: evaluation #{k + 1} ({op["entry"]}) raises {kind}, not the library error', c, [kind, msg], 'accepted or BiogemeError', where=where)
     lg = ast_find_logit(case['ast'])
     req = {'op': 'session', 'configs': ast_configs(case['ast']), 'sel': 0, 'cols': SESSION_COLS + [f'av_{a}' for a in case.get('alts', [])], 'panel': False,
            'logit': ({'alts': lg[2], 'av': logit_av_keys(lg[2], lg[3], lg[4]), 'choices': case['choices']} if lg else None),
